@@ -18,11 +18,15 @@ def run(cmd, **kw):
 
 def main():
     args = sys.argv[1:]
-    only = None; cross = "--cross" in args; tests = "--tests" in args; tier = "quick"; seeded = "--seeded" in args
+    only = None; cross = "--cross" in args; tests = "--tests" in args; tier = "quick"; seeded = "--seeded" in args; benign = "--benign" in args
     if "--only" in args: only = args[args.index("--only") + 1]
     if "--tier" in args: tier = args[args.index("--tier") + 1]
     items = []
-    if seeded:
+    if benign:
+        cross = True
+        for d in sorted(glob.glob(os.path.join(VERIF, "benign", "*", "patch.diff"))):
+            items.append(dict(id="benign-" + os.path.basename(os.path.dirname(d)), property="C11", patch=d, expect="silent-all", also_breaks=[]))
+    elif seeded:
         for d in sorted(glob.glob(os.path.join(VERIF, "seeded", "*", "meta.json"))):
             m = json.load(open(d))
             items.append(dict(id="seeded-" + os.path.basename(os.path.dirname(d)), property=m["property"], patch=os.path.join(os.path.dirname(d), "patch.diff"), expect="fail", also_breaks=m.get("also_breaks", [])))
@@ -31,7 +35,7 @@ def main():
             items.append(dict(id=m["id"], property=m["property"], patch=os.path.join(VERIF, "mutants", m["id"] + ".patch"), expect=m["expect"], also_breaks=m["also_breaks"], note=m.get("note", "")))
     if only:
         items = [i for i in items if only in i["id"]]
-    resfile = os.path.join(VERIF, "seeded" if seeded else "mutants", "results.json")
+    resfile = os.path.join(VERIF, "benign" if benign else "seeded" if seeded else "mutants", "results.json")
     results = {}
     if os.path.exists(resfile):
         results = json.load(open(resfile))
@@ -41,7 +45,7 @@ def main():
         shutil.rmtree(scratch, ignore_errors=True)
         os.makedirs(scratch)
         run(["rsync", "-a", "--exclude", "_build", "--exclude", ".git", "/repo/", scratch + "/"])
-        r = run(["patch", "-p1", "-s", "-i", it["patch"]], cwd=scratch)
+        r = run(["git", "apply", it["patch"]], cwd=scratch) if benign else run(["patch", "-p1", "-s", "-i", it["patch"]], cwd=scratch)
         if r.returncode != 0:
             print("%-40s PATCH DOES NOT APPLY\n%s" % (it["id"], r.stdout)); bad += 1; shutil.rmtree(scratch, ignore_errors=True); continue
         rec = dict(property=it["property"], expect=it["expect"], checks={})
@@ -63,6 +67,8 @@ def main():
                 rec["checks"][p]["fault"] = r.stdout[-400:]
         own = rec["checks"][it["property"]]
         ok = (own["exit"] == 1 and own["violation"]) if it["expect"] == "fail" else (own["exit"] == 0)
+        if it["expect"] == "silent-all":
+            ok = all(c["exit"] == 0 for c in rec["checks"].values())
         rec["ok"] = ok
         fired = [p for p, c in rec["checks"].items() if c["exit"] == 1]
         print("%-44s %s owner=%s exit=%d cls=%s fired=%s %s" % (it["id"], "OK  " if ok else "MISS", it["property"], own["exit"], own["cls"], ",".join(fired), ("tests=%s" % rec.get("repo_tests_pass")) if tests else ""))
